@@ -651,8 +651,9 @@ func (h *handler1) handleSubscribe(ctx context.Context, snSubscribe *snPkts1.Sub
 	case snPkts1.TIT_STRING:
 		topic = string(snSubscribe.TopicName)
 		if !hasWildcard(topic) {
+			// A topic which is registered already keeps its TopicID.
 			var err error
-			topicID, err = h.newTopicID()
+			topicID, err = h.registerTopic(topic)
 			if err != nil {
 				snSuback := snPkts1.NewSuback(0, snPkts1.RC_INVALID_TOPIC_ID, 0)
 				// We are kind of misusing the "invalid topic ID" return code here.
@@ -666,7 +667,7 @@ func (h *handler1) handleSubscribe(ctx context.Context, snSubscribe *snPkts1.Sub
 			// The Server is permitted to start sending PUBLISH packets matching
 			// the Subscription before the Server sends the SUBACK Packet.
 			// [MQTT v.5.0, chapter 3.8.4 SUBSCRIBE Actions]
-			h.registeredTopics.Store(topicID, topic)
+			// (registerTopic above has done it.)
 		}
 		// topicID remains zero if client is subscribing to a wildcard topic.
 	case snPkts1.TIT_PREDEFINED:
